@@ -70,8 +70,12 @@ def algOf : Kind → Ls.Alg
   | .chol => .chol
   | .gso => .gso
 
+/-- `defect()` of the numeric model, asked under `min_x()` (all unknowns: a list every model covers and that is never
+    too short), so that it is a function of `(A, b)` alone — `p.reg`, the configuration the data set happens to have
+    been defined with, does not enter.  Every successful solve of `p`, under whatever regularisation, reports this
+    defect (`solver_defect_indep`, Lemmas/FullStateFacts.lean). -/
 def defectF (alg : Ls.Alg) (p : Problem K) : Nat :=
-  match solverOf alg p with | .ok a => a.defect | .error _ => 0
+  match solverOf alg { p with reg := .all } with | .ok a => a.defect | .error _ => 0
 
 /-- the regularisation step does not throw BadRegularization for the list `l` -/
 def resolvesF (alg : Ls.Alg) (p : Problem K) (l : List Nat) : Bool :=
@@ -84,7 +88,7 @@ structure FactsF (alg : Ls.Alg) (p : Problem K) (inp : Input) : Prop where
   nullity : inp.nullity = defectF alg p
   resolves : ∀ l, inp.resolves l = resolvesF alg p l
 
-/-- the symbolic input OF a numeric problem -/
+/-- the symbolic input OF a numeric problem (what `Driver/FullState.lean` runs the machines on since round 6) -/
 def inputOf (alg : Ls.Alg) (p : Problem K) : Input :=
   { n := p.n, nullity := defectF alg p, resolves := resolvesF alg p }
 
@@ -92,13 +96,43 @@ def inputOf (alg : Ls.Alg) (p : Problem K) : Input :=
 def cfgReg (useAll : Bool) (list : Option (List Nat)) : Reg :=
   if useAll then .all else .subset (list.getD [])
 
-/-- chol / gso: what a fresh object returns for problem `p` under the caller's configuration -/
-def answerF (alg : Ls.Alg) (p : Problem K) (useAll : Bool) (list : Option (List Nat)) : Full.Op → DVal K :=
-  directF alg p (cfgReg useAll list) (defectF alg p != 0)
-    (if useAll then allList p.n else list.getD []) false
+/-- the field of an answer record a query reads -/
+def fieldF (a : Except ErrKind (Answer K)) : Full.Op → DVal K
+  | .unknowns => xOf a
+  | .residuals => ofE (fun (r : Answer K) => .vec r.r) a
+  | .sumsq => ofE (fun (r : Answer K) => .num r.rtr) a
+  | .defect => ofE (fun (r : Answer K) => .int r.defect) a
+  | .lindep i => ofE .flag (a >>= fun r => r.lindep i)
+  | .qbb i j => ofE .num (a >>= fun r => r.qbb i j)
+  | .qxx i j => ofE .num (a >>= fun r => r.qxx i j)
+  | .qbx i j => ofE .num (a >>= fun r => r.qbx i j)
+  | .minxAll => .ok
+  | .minx _ => .ok
+  | .reset => .ok
+
+/-- chol / gso: what a fresh object returns for problem `p` under the caller's configuration — the field of the
+    numeric solver model run ONCE on `p` with that configuration (round 6: no branch on the defect; as
+    `EnvDenote.answer`) -/
+def answerF (alg : Ls.Alg) (p : Problem K) (useAll : Bool) (list : Option (List Nat)) (op : Full.Op) : DVal K :=
+  fieldF (solverOf alg { p with reg := cfgReg useAll list }) op
 
 /-- svd (`sub` = a subset is configured) -/
-def answerS (p : Problem K) (sub : Bool) (list : Option (List Nat)) : Full.Op → DVal K :=
-  directF .svd p (cfgReg (!sub) list) (defectF .svd p != 0 && sub) (if sub then list.getD [] else []) true
+def answerS (p : Problem K) (sub : Bool) (list : Option (List Nat)) (op : Full.Op) : DVal K :=
+  fieldF (solverOf .svd { p with reg := cfgReg (!sub) list }) op
+
+/-! ### round 6: the facts the correspondence driver reads from the implementation (`info` line, solver entry) -/
+
+/-- `info <alg> <n> <nullity>`: number of unknowns and `defect()` as a separate fresh object of the real class
+    reports them for the data set the object under test holds -/
+structure FInfo where
+  n : Nat
+  nullity : Nat
+deriving Repr, DecidableEq
+
+/-- the probe's facts agree with the numeric problem: same size, same defect as the solver model reports.  The driver
+    runs the machine on `inputOf alg p` and refuses an `info` line unless it agrees (prints
+    `info-does-not-describe-the-problem …`: a disagreement with the harness). -/
+def FInfo.agrees (f : FInfo) (alg : Ls.Alg) (p : Problem K) : Bool :=
+  f.n == (inputOf alg p).n && f.nullity == (inputOf alg p).nullity
 
 end Gama.C04.Full
